@@ -45,7 +45,8 @@ func ruleMenu() []ruleInst {
 		}
 	}
 	for _, r := range []string{"required", "in=(a/1/中)", "in=(1/2/1.5)", "include=(a)", "include=(1/ )", "phone", "email", "idcard", "ip", "ipv4", "ipv6", "year", "year2month", "date", "datetime",
-		"year2month=/", "date=/", "int", "ints", "ints=-", "float", "re='^a+$'", "re='^\\d$'", "unique", "json", "prefix=a", "suffix=1", "prefix=中", "file", "dir"} {
+		"year2month=/", "date=/", "int", "ints", "ints=-", "float", "re='^a+$'", "re='^\\d$'", "unique", "json", "prefix=a", "suffix=1", "prefix=中", "file", "dir",
+		"in=(1+1/100%/a%41)", "include=(+)", "include=(%4)", "prefix=+", "suffix=%", "re='^\\d\\+\\d$'"} {
 		add(r)
 	}
 	return out
@@ -71,7 +72,8 @@ func valueMenu() []val {
 	out = append(out, val{`""`, rv("")})
 	enum.Strings([]string{"a", "1", "中", " ", "/", "-", "."}, 3, func(s string) { out = append(out, val{fmt.Sprintf("%q", s), rv(s)}) })
 	for _, s := range []string{"13800138000", "a@b.cn", "1.2.3.4", "::1", "2021", "2021-09", "2021/09", "2021-09-28", "2021/09/28", "2021-09-28 23:00:00", "12", "1.5", `{"a":1}`, "1,2,3", "1-2-3", "1,1",
-		"110101199003074514", "aaaa", "hello world", "a b", " a", "a ", "中文 a"} {
+		"110101199003074514", "aaaa", "hello world", "a b", " a", "a ", "中文 a",
+		"1+1", "+8613800138000", "100%", "a%41", "%", "+", "a+b%2Bc", "1 1", "aA", "%%", "1%2B1"} {
 		out = append(out, val{fmt.Sprintf("%q", s), rv(s)})
 	}
 	return out
@@ -86,6 +88,12 @@ type carrierFn struct {
 func anyV(reflect.Value) bool { return true }
 func strV(v reflect.Value) bool {
 	return v.Kind() == reflect.String && !strings.ContainsAny(v.String(), "&=?#%+")
+}
+
+// strEnc: values that can be carried only in an encoded form ('+' and '%' survive the library's whole-URL decoding
+// when they are percent-encoded; '&', '=', '?', '#' cannot be carried at all under that contract).
+func strEnc(v reflect.Value) bool {
+	return v.Kind() == reflect.String && !strings.ContainsAny(v.String(), "&=?#")
 }
 
 func carriers() []carrierFn {
@@ -112,9 +120,9 @@ func carriers() []carrierFn {
 		{"url-first-raw", strV, u(func(v string) string { return "http://h/p?k=" + v + "&a=1&z=zz" })},
 		{"url-middle-raw", strV, u(func(v string) string { return "http://h/p?a=1&k=" + v + "&z=zz" })},
 		{"url-last-raw", strV, u(func(v string) string { return "http://h/p?a=1&z=zz&k=" + v })},
-		{"url-value-escaped", strV, u(func(v string) string { return "http://h/p?a=1&k=" + url.QueryEscape(v) + "&z=2" })},
+		{"url-value-escaped", strEnc, u(func(v string) string { return "http://h/p?a=1&k=" + url.QueryEscape(v) + "&z=2" })},
 		{"url-value-pathescaped", strV, u(func(v string) string { return "http://h/p?k=" + url.PathEscape(v) })},
-		{"url-whole-escaped", strV, u(func(v string) string { return url.QueryEscape("http://h/p?a=1&k=" + v) })},
+		{"url-whole-escaped", strEnc, u(func(v string) string { return url.QueryEscape("http://h/p?a=1&k=" + v) })},
 	}
 }
 
@@ -268,7 +276,7 @@ func main() {
 		Rule: "rule lists = every single rule of a 140-entry menu (size rules with bounds [0..4]^2, every format rule with arguments) + ordered pairs of a reduced menu, each rule instance tagged by a unique message; " +
 			"values = numeric window [-6..9] in 8 kinds + all strings of length<=3 over {a,1,中,space,/,-,.} + format witnesses; carriers = Var, struct tag, struct per-call rule, map[string]T, map[string]interface{}, []map, " +
 			"URL (single/first/middle/last parameter raw, per-value QueryEscape (+ for space), PathEscape, whole-URL escaped); case = (rule list, value); transitions = calls; non-trivial = non-empty violated set",
-		Assumptions: []string{"URL values containing & = ? # % + are excluded (DESIGN §7)", "map iteration order irrelevant: one rule key per call"},
+		Assumptions: []string{"URL values containing & = ? # are excluded; values containing + or % are carried in the percent-encoded URL forms only (DESIGN §7)", "map iteration order irrelevant: one rule key per call"},
 		Run:         run,
 	})
 }
